@@ -17,6 +17,8 @@ inductive Err | entropyLen | invalidMnemonic | wordNotFound | checksum
 
 /-- `wordList` -/
 def wordList : List Bytes := Gen.Bip39Words.words
+-- 2048 literal entries: keep the elaborator from unfolding it (kernel evaluation is unaffected)
+attribute [irreducible] wordList
 
 /-- `wordMap[w]` : (index, found). (First index; the list has no duplicates — Props.C14.words_nodup.) -/
 def wordIndex (w : Bytes) : Option Nat :=
